@@ -69,10 +69,6 @@ class NotApplicable(Exception):
     pass
 
 
-class AnyPrefix:
-    """model answer for a backend-defined fetch size that the model cannot know: never used (D is explicit)"""
-
-
 # ------------------------------------------------------------------------------------------------- the list model
 class Model:
     def __init__(self, source, rows):
